@@ -89,3 +89,117 @@ class suspended:
         for m, n, v in self.cur:
             _set(m, n, v)
         return False
+
+
+# --------------------------------------------------------------------------
+# numpy facade: value-carrying float arrays become exact object arrays
+# --------------------------------------------------------------------------
+import math as _math
+
+import numpy as _np
+
+
+def _has_sym(o):
+    if isinstance(o, (E.SInt, E.SBool)):
+        return True
+    if isinstance(o, _np.ndarray):
+        return o.dtype == object
+    if isinstance(o, (list, tuple)):
+        return any(_has_sym(x) for x in o)
+    return False
+
+
+class NumpyFacade:
+    """Thin facade over the real numpy: float dtypes are stored as exact
+    python objects (so symbolic ints survive); every function still runs in
+    the real numpy.  float32 rounding is therefore outside the claim."""
+
+    float32 = object
+
+    def __getattr__(self, name):
+        return getattr(_np, name)
+
+    @staticmethod
+    def _dt(dtype):
+        if dtype is None or dtype in (float, _np.float32, _np.float64, object):
+            return object
+        return dtype
+
+    def zeros(self, shape, dtype=None, **kw):
+        dt = self._dt(dtype)
+        a = _np.empty(shape, dtype=dt)
+        a.fill(0)
+        return a
+
+    def ones(self, shape, dtype=None, **kw):
+        a = _np.empty(shape, dtype=self._dt(dtype))
+        a.fill(1)
+        return a
+
+    def full(self, shape, fill_value, dtype=None, **kw):
+        a = _np.empty(shape, dtype=self._dt(dtype))
+        a.fill(fill_value)
+        return a
+
+    def array(self, obj, dtype=None, **kw):
+        if _has_sym(obj) or (dtype is not None and self._dt(dtype) is object):
+            return _np.array(obj, dtype=object, **kw)
+        return _np.array(obj, dtype=dtype, **kw)
+
+    def asarray(self, obj, dtype=None, **kw):
+        if isinstance(obj, _np.ndarray) and (dtype is None or obj.dtype == object):
+            return obj
+        return self.array(obj, dtype=dtype, **kw)
+
+    def isnan(self, a):
+        a = _np.asarray(a)
+        if a.dtype != object:
+            return _np.isnan(a)
+        return _np.frompyfunc(lambda x: isinstance(x, float) and x != x, 1, 1)(a).astype(bool)
+
+    def isinf(self, a):
+        a = _np.asarray(a)
+        if a.dtype != object:
+            return _np.isinf(a)
+        return _np.frompyfunc(lambda x: isinstance(x, float) and _math.isinf(x), 1, 1)(a).astype(bool)
+
+    def maximum(self, a, b, **kw):
+        if _has_sym(a) or _has_sym(b):
+            return _np.frompyfunc(lambda x, y: E.sym_max(x, y), 2, 1)(a, b)
+        return _np.maximum(a, b, **kw)
+
+    def minimum(self, a, b, **kw):
+        if _has_sym(a) or _has_sym(b):
+            return _np.frompyfunc(lambda x, y: E.sym_min(x, y), 2, 1)(a, b)
+        return _np.minimum(a, b, **kw)
+
+    def min(self, a, axis=None, **kw):
+        a = _np.asarray(a) if not isinstance(a, _np.ndarray) else a
+        if a.dtype == object and not kw:
+            return _np.frompyfunc(lambda x, y: E.sym_min(x, y), 2, 1).reduce(a, axis=axis)
+        return _np.min(a, axis=axis, **kw)
+
+    def max(self, a, axis=None, **kw):
+        a = _np.asarray(a) if not isinstance(a, _np.ndarray) else a
+        if a.dtype == object and not kw:
+            return _np.frompyfunc(lambda x, y: E.sym_max(x, y), 2, 1).reduce(a, axis=axis)
+        return _np.max(a, axis=axis, **kw)
+
+
+NP = NumpyFacade()
+
+
+def numpy_facade_models(include_rl=False):
+    """(module, 'np', facade) triples for every library module that holds
+    numeric feature arrays."""
+    out = []
+    for m in lib_modules():
+        n = m.__name__
+        if "np" not in m.__dict__:
+            continue
+        if n.startswith("job_shop_lib.dispatching.feature_observers") or \
+                n == "job_shop_lib._job_shop_instance" or \
+                n == "job_shop_lib.dispatching.rules._dispatching_rules_functions" or \
+                (include_rl and n.startswith("job_shop_lib.reinforcement_learning")):
+            out.append((m, "np", NP))
+    return out
